@@ -372,6 +372,7 @@ inductive PyOut
   | typeError
   | overflowError
   | valueError
+  | osError                 -- OSError raised by the extension itself (errno set by hand)
   | ub                      -- undefined behaviour reached in C
   | syscall (packed : Int)  -- the value handed to the kernel
   deriving DecidableEq, Repr
@@ -399,6 +400,8 @@ structure ICfg where
   cGuard : Option (Int × Int)
   /-- C-side range check on `iodata` -/
   cDataGuard : Option (Int × Int)
+  /-- the C-side check raises OSError(EINVAL) (true) or ValueError (false) -/
+  cGuardOSError : Bool
   /-- Python-side (`ionice_set`) restriction of `ioclass` to an interval, else ValueError -/
   pyClassGuard : Option (Int × Int)
   /-- Python-side `value < lo or value > hi` → ValueError -/
@@ -422,7 +425,8 @@ def inRange (g : Option (Int × Int)) (v : Int) : Bool :=
 /-- `psutil_proc_ioprio_set` after a successful "iii" parse.  A negative `iodata` makes the
     `|` implementation-defined (not undefined); the packed value is then not claimed. -/
 def ioprioSetC (cfg : ICfg) (cls data : Int) : PyOut :=
-  if !(inRange cfg.cGuard cls) || !(inRange cfg.cDataGuard data) then .valueError
+  if !(inRange cfg.cGuard cls) || !(inRange cfg.cDataGuard data) then
+    (if cfg.cGuardOSError then .osError else .valueError)
   else match shlInt cls cfg.shift with
     | none => .ub
     | some x => if data < 0 then .syscall (-1) else .syscall (orNat x data)
